@@ -83,9 +83,10 @@ func (m *MergeCompactionIterator) Next() ([]byte, []byte, error) {
 			if errors.Is(err, pq.Done) {
 				if len(m.valBuf) > 0 {
 					kReduced, vReduced := m.reduce(m.prevKey, m.valBuf, m.ctxBuf)
-					if kReduced != nil && vReduced != nil {
-						// clear the buffer, so we don't infinite loop on the last elements
-						m.valBuf = m.valBuf[:0]
+					// clear the buffer, so we don't infinite loop on the last elements
+					m.valBuf = m.valBuf[:0]
+					// a nil value signals that the reduction dropped the key, the key itself may legitimately be empty
+					if vReduced != nil {
 						return kReduced, vReduced, nil
 					}
 				}
@@ -96,13 +97,9 @@ func (m *MergeCompactionIterator) Next() ([]byte, []byte, error) {
 		}
 
 		var toReturnKey, toReturnVal []byte
-		//we have to accumulate the whole sequence
-		if m.prevKey != nil && m.comp.Compare(k, m.prevKey) != 0 {
-			kReduced, vReduced := m.reduce(m.prevKey, m.valBuf, m.ctxBuf)
-			if kReduced != nil && vReduced != nil {
-				toReturnKey = kReduced
-				toReturnVal = vReduced
-			}
+		//we have to accumulate the whole sequence, an empty valBuf means there was no previous key yet
+		if len(m.valBuf) > 0 && m.comp.Compare(k, m.prevKey) != 0 {
+			toReturnKey, toReturnVal = m.reduce(m.prevKey, m.valBuf, m.ctxBuf)
 			m.valBuf = make([][]byte, 0)
 			m.ctxBuf = make([]int, 0)
 		}
@@ -111,7 +108,8 @@ func (m *MergeCompactionIterator) Next() ([]byte, []byte, error) {
 		m.valBuf = append(m.valBuf, v)
 		m.ctxBuf = append(m.ctxBuf, c)
 
-		if toReturnKey != nil && toReturnVal != nil {
+		// a nil value signals that the reduction dropped the key, the key itself may legitimately be empty
+		if toReturnVal != nil {
 			return toReturnKey, toReturnVal, nil
 		}
 	}
